@@ -18,7 +18,10 @@ MANIFEST = dict(
          "J2000 pole/node constants (all three pairs) and the standard B1950 galactic pole / obliquity; the 6-entry literal tables are located "
          "through their tie to the constants used and must satisfy |s^2+c^2-1| <= 1e-9; (2) the Euler core and the zxz rotation terms are "
          "compared with the astrolib definition; the asin argument must "
-         "be clamped on both sides; the output longitude is a positive-offset modulo 2pi (range [0,360)); (3) the six wrappers map to "
+         "be clamped on both sides; the output longitude is a positive-offset modulo 2pi (range [0,360)); a result rotate() returns only under a "
+         "guard on the Euler angles (a shortcut) is compared with the zxz rotation on the solution set of the guard (a tolerance test |g| < eps "
+         "stands for g = 0; the solution families are substituted into both and the directions compared as terms; a difference is reported "
+         "with a point of the guard's solution set that refutes the identity); (3) the six wrappers map to "
          "selectors 1..6 and forward epoch and dtype, and each wrapper evaluated to terms for either epoch uses the rotation constants of its own "
          "selector in that epoch; (4) unit-vector conversions and their range fold carry the units of the chosen "
          "option; SDSS node/pole constants and formulas; range checks raise; (5) longitude shifting: the evaluated result of shiftlon for a "
@@ -44,7 +47,7 @@ WRAPPERS = {"eq2gal": 1, "gal2eq": 2, "eq2ec": 3, "ec2eq": 4, "ec2gal": 5, "gal2
 
 # rules that keep their verdict however the code is laid out (decided by term equality, effect analysis or dominance over
 # resolved calls); every other rule of this check is a template rule (vcheck.core.Check.obt)
-SEMANTIC = ('R09.1', 'R09.3', 'R09.5::wrapper-term', 'R09.6', 'R09.8')
+SEMANTIC = ('R09.1', 'R09.3', 'R09.5::wrapper-term', 'R09.6', 'R09.8', 'R09.9::rotate::alternative-under-angle-guard')
 
 
 def _load_repo():
@@ -119,8 +122,26 @@ def _is_literal(e):
     return isinstance(e, ast.Constant) and (e.value is None or isinstance(e.value, (bool, int, float, str)))
 
 
+def _hypot(a, b, where):
+    """numpy.hypot / math.hypot as a term: sqrt(a**2 + b**2), element by element (a number is broadcast over a sequence)"""
+    sa, sb = isinstance(a, (tuple, list)), isinstance(b, (tuple, list))
+    if sa and sb:
+        if len(a) != len(b):
+            raise symx.Unsupported("symx: hypot of sequences of different length at %s" % where)
+        return tuple(_hypot(x, y, where) for x, y in zip(a, b))
+    if sa:
+        return tuple(_hypot(x, b, where) for x in a)
+    if sb:
+        return tuple(_hypot(a, y, where) for y in b)
+    if not (symx._is_expr(a) and symx._is_expr(b)):
+        raise symx.Unsupported("symx: hypot of non-numeric values at %s" % where)
+    a, b = symx._as_expr(a), symx._as_expr(b)
+    return sp.sqrt(a * a + b * b)
+
+
 class _Env(symx.Env):
     """symx.Env plus
+      * numpy.hypot / math.hypot (sqrt(x1**2 + x2**2), element by element);
       * a numpy function used as a *value* (entry of a dispatch table, local alias) and called through that value;
       * ufunc(..., out=x, where=mask): the masked in-place update  x = Piecewise((ufunc(...), mask), (x, True));
       * package helpers taking *args that update those arrays in place;
@@ -168,6 +189,13 @@ class _Env(symx.Env):
                 a, b, rtol, atol = [symx._as_expr(x) for x in (a, b, rtol, atol)]
                 rel = sp.Le(sp.Abs(a - b), atol + rtol * sp.Abs(b))
                 return bool(rel) if rel in (sp.true, sp.false) else symx.Mask(rel)
+        if nm == "hypot" and _np_full(self, f) in ("numpy.hypot", "math.hypot") and len(c.args) in (2, 3) and all(k.arg == "out" for k in c.keywords):
+            # the documented meaning of the library function, as a term: sqrt(x1**2 + x2**2), element by element with broadcasting
+            r = _hypot(self.ev(c.args[0]), self.ev(c.args[1]), self.where(c))
+            out = c.args[2] if len(c.args) == 3 else kwarg(c, "out")
+            if out is not None:
+                self.assign(out, r, c)
+            return r
         w = kwarg(c, "where")
         if w is not None and _np_full(self, f):
             return self._masked_ufunc(c, w)
@@ -886,39 +914,295 @@ def wrappers(chk, repo, eff, terms):
     # documented constants above for J2000; for B1950 the relation is checked numerically on the literal tables
 
 
+# ---------------------------------------------------------------------------
+# zxz rotation: alternatives selected by a guard on the Euler angles
+_TOL_GUARD = sp.Rational(1, 10 ** 7)          # rad; the property's 1e-5 degree is 1.7e-7 rad
+
+
+def _flat_conds(conds):
+    """the guard as a list of relations (conjunctions flattened, negations of relations pushed in); None for anything else"""
+    out = []
+    todo = list(conds)
+    while todo:
+        c = todo.pop(0)
+        if c is sp.true or c == True:                      # noqa
+            continue
+        if isinstance(c, sp.And):
+            todo = list(c.args) + todo
+        elif isinstance(c, sp.Not) and isinstance(c.args[0], sp.Rel):
+            todo.insert(0, c.args[0].negated)
+        elif isinstance(c, sp.Rel):
+            out.append(c)
+        else:
+            return None
+    return out
+
+
+def _pinning_equation(c):
+    """g when the relation c confines a quantity g to zero, or to a tolerance band around zero too narrow for the property's 1e-5 degree to tell
+    from zero: every point with g = 0 satisfies c.  Recognised: an equation; |g| < eps, |g| <= eps, eps > |g| ... with a number
+    0 < eps <= 1e-7; a sine / cosine (or its absolute value) compared with a number within 1e-7 of the end of its range on the side of that
+    end (cos t > 1 - eps pins cos t = 1, |sin t| < eps pins sin t = 0, cos t <= -1 + eps pins cos t = -1).  None for a relation that holds
+    on a whole range of angles"""
+    if isinstance(c, sp.Eq):
+        return c.lhs - c.rhs
+    if not isinstance(c, (sp.Lt, sp.Le, sp.Gt, sp.Ge)):
+        return None
+    if isinstance(c, (sp.Gt, sp.Ge)) and c.lhs.is_number:
+        c = c.reversed
+    elif isinstance(c, (sp.Lt, sp.Le)) and c.lhs.is_number:
+        c = c.reversed
+    if not (c.rhs.is_number and c.rhs.is_real):
+        # bring the numbers to the right:  t - k (op) 0  ->  t (op) k
+        d = sp.expand(c.lhs - c.rhs)
+        k, t = d.as_independent(*d.free_symbols, as_Add=True)
+        if not (k.is_number and k.is_real) or t == 0:
+            return None
+        c = type(c)(t, -k)
+    t, k = c.lhs, c.rhs
+    co, core = t.as_independent(*t.free_symbols, as_Add=False)
+    if co.is_number and co.is_real and co != 0 and co != 1:
+        t, k = core, k / co
+        if co < 0:
+            c = c.reversed.func(t, k)                      # dividing by a negative number turns the relation round
+        else:
+            c = c.func(t, k)
+    upper = isinstance(c, (sp.Lt, sp.Le))                   # t below k
+    if isinstance(t, sp.Abs):
+        lo, hi = sp.Integer(0), (sp.Integer(1) if isinstance(t.args[0], (sp.sin, sp.cos)) else None)
+    elif isinstance(t, (sp.sin, sp.cos)):
+        lo, hi = sp.Integer(-1), sp.Integer(1)
+    else:
+        return None
+    if upper and 0 <= k - lo <= _TOL_GUARD and (k > lo or isinstance(c, sp.Le)):
+        return t.args[0] if lo == 0 else t - lo
+    if not upper and hi is not None and 0 <= hi - k <= _TOL_GUARD and (k < hi or isinstance(c, sp.Ge)):
+        return t - hi
+    return None
+
+
+def _solution_families(g, v):
+    """the real solutions of g = 0 for the symbol v as a list of terms (whole-number parameters as fresh integer symbols); None when the
+    solution set does not come out as a finite union of points and one-parameter families"""
+    co, core = g.as_independent(*g.free_symbols, as_Add=False)
+    if isinstance(core, sp.Mod) and co.is_number and co != 0:
+        g = core                                           # k Mod(f, m) = 0  <=>  Mod(f, m) = 0
+    if isinstance(g, sp.Mod) and g.args[1].is_number and g.args[1] > 0:
+        n = sp.Dummy("n", integer=True)
+        g = g.args[0] - g.args[1] * n                      # Mod(f, m) = 0  <=>  f = m n
+    try:
+        S = symx._with_timeout(lambda: sp.solveset(sp.Eq(g, 0), v, sp.S.Reals), 10.0)
+    except Exception:
+        return None
+    out = []
+
+    def take(S):
+        if S is sp.S.EmptySet:
+            return True
+        if isinstance(S, sp.FiniteSet):
+            out.extend(S.args)
+            return True
+        if isinstance(S, sp.ImageSet) and S.base_sets == (sp.S.Integers,) and len(S.lamda.variables) == 1:
+            n = sp.Dummy("n", integer=True)
+            out.append(sp.simplify(S.lamda.expr.xreplace({S.lamda.variables[0]: n})))
+            return True
+        if isinstance(S, sp.Union):
+            return all(take(a) for a in S.args)
+        return False
+    return out if take(S) else None
+
+
+def _pinned_angles(conds, angles):
+    """(substitutions, open) for a guard on the Euler angles: substitutions = the list of {angle: term} that solve the guard's pinning equations
+    (see _pinning_equation) and are not excluded by its other relations, open = those other relations.  (None, None) when the guard is not a
+    conjunction of relations on the Euler angles alone or its equations cannot be solved"""
+    rels = _flat_conds(conds)
+    if rels is None or any(not c.free_symbols or not c.free_symbols <= set(angles) for c in rels):
+        return None, None
+    eqs, open_ = [], []
+    for c in rels:
+        g = _pinning_equation(c)
+        if g is None:
+            open_.append(c)
+        else:
+            eqs.append(g)
+    subs = [{}]
+    for g in eqs:
+        nxt = []
+        for s_ in subs:
+            g1 = g.subs(s_)
+            free = [x for x in g1.free_symbols if x in angles]
+            if not free:
+                z = sp.simplify(g1)
+                if z == 0:
+                    nxt.append(s_)
+                elif not z.is_number and not (z.is_zero is False):
+                    return None, None
+                continue
+            if len(free) != 1:
+                return None, None
+            fam = _solution_families(g1, free[0])
+            if fam is None:
+                return None, None
+            for t in fam:
+                s2 = dict(s_)
+                s2[free[0]] = t
+                nxt.append(s2)
+        subs = nxt
+    keep = []
+    for s_ in subs:
+        dead = False
+        for c in open_:
+            try:
+                t = sp.simplify(c.subs(s_))
+            except Exception:
+                t = None
+            if t is sp.false:
+                dead = True
+        if not dead:
+            keep.append(s_)
+    return keep, open_
+
+
+def _unmod_turns(e):
+    """e with every  Mod(x, m)  replaced by  x - m k  (k a fresh whole number): what the modulo is, up to which multiple it removes"""
+    return e.replace(lambda t: isinstance(t, sp.Mod) and t.args[1].is_number and t.args[1] > 0,
+                     lambda t: t.args[0] - t.args[1] * sp.Dummy("k", integer=True))
+
+
+def _rotation_residuals(ra_v, dec_v, sym):
+    """the three components of  (unit vector of the returned (ra', dec'), turned back by psi about z)  minus  (the zxz rotation of the input unit
+    vector before that last turn): all three are identically zero exactly when (ra', dec') is the zxz rotation of (ra, dec), ra' up to whole turns"""
+    phi, theta, psi, ra, dec = sym
+    d2r = sp.pi / 180
+    P, T, S = -phi * d2r, -theta * d2r, -psi * d2r
+    a = ra * d2r - P
+    b = dec * d2r
+    x1 = sp.cos(b) * sp.cos(a)
+    y1 = sp.cos(T) * sp.cos(b) * sp.sin(a) + sp.sin(T) * sp.sin(b)
+    z1 = -sp.sin(T) * sp.cos(b) * sp.sin(a) + sp.cos(T) * sp.sin(b)
+    L = dec_v * d2r
+    A = ra_v * d2r - S
+    return [sp.cos(L) * sp.cos(A) - x1, sp.cos(L) * sp.sin(A) - y1, sp.sin(L) - z1]
+
+
+def _guard_witness(conds, res, sub, sym):
+    """a point of the guard's solution set at which one of the residual terms is not zero: exact values of the symbols that satisfy every
+    relation of the guard (decided exactly), the residual evaluated there in 30-digit arithmetic.  This refutes the identity of two terms; it is
+    not a run of the code.  -> description or None"""
+    phi, theta, psi, ra, dec = sym
+    rels = _flat_conds(conds) or []
+    ints = sorted({x for t in sub.values() for x in t.free_symbols if x.is_integer}, key=str)
+    for base in ({phi: 11, psi: 53, ra: 37, dec: 23, theta: 29}, {phi: -71, psi: 140, ra: 211, dec: -48, theta: -117}):
+        for nval in (0, 1, -1, 2):
+            at = {k: sp.Integer(v) for k, v in base.items()}
+            for k, t in sub.items():
+                at[k] = t.subs({n: nval for n in ints})
+            # angles pinned in terms of other angles
+            at = {k: (sp.sympify(v).subs({q: w for q, w in at.items() if q != k}) if isinstance(v, sp.Basic) else v) for k, v in at.items()}
+            if any(sp.sympify(v).free_symbols for v in at.values()):
+                continue
+            try:
+                if not all(sp.simplify(c.subs(at)) is sp.true for c in rels):
+                    continue
+                vals = [abs(mp.mpf(str(sp.N(r_.subs(at), 30)))) for r_ in res]
+            except Exception:
+                continue
+            worst = max(vals)
+            if worst > mp.mpf("1e-9"):
+                return "at phi=%s theta=%s psi=%s ra=%s dec=%s, which satisfies the guard, the returned direction differs from the zxz rotation by %s (unit-vector component)" % (
+                    at[phi], at[theta], at[psi], at[ra], at[dec], mp.nstr(worst, 3))
+    return None
+
+
+def _rotate_alternative(chk, fi, k, conds, ra_v, dec_v, sym):
+    """R09.9 alternative-under-angle-guard: a result rotate() returns only for Euler angles that satisfy a guard (a shortcut for `no tilt', for the
+    identity, ...) must be the zxz rotation for EVERY angle the guard lets through.  The guard's solution set is computed (a tolerance test
+    |g| < eps stands for g = 0), each solution family is substituted into the returned terms and into the rotation, and the two directions are
+    compared as terms."""
+    phi, theta, psi, ra, dec = sym
+    key = "rotate::alternative-under-angle-guard::%d" % k
+    gtxt = " and ".join(str(c) for c in (_flat_conds(conds) or conds))[:200]
+    what = "the result returned when %s is the zxz rotation for every angle that satisfies this guard" % gtxt
+    subs, open_ = _pinned_angles(conds, (phi, theta, psi))
+    if subs is None:
+        chk.ob("R09.9", key, None, fi.where(), what + ": the solution set of the guard could not be computed")
+        return
+    res = _rotation_residuals(ra_v, dec_v, sym)
+    allok = True
+    for s_ in subs:
+        fam = ", ".join("%s = %s" % (a_, sp.simplify(t)) for a_, t in sorted(s_.items(), key=lambda kv: str(kv[0])))
+        fam = fam.replace("_n", "n") + (" (n any whole number)" if any(x.is_integer for t in s_.values() for x in t.free_symbols) else "")
+        bad = None
+        proven = True
+        for r_ in res:
+            r1 = _unmod_turns(r_.subs(s_))
+            eq = False
+            for f in (lambda x: x, sp.expand_trig, sp.simplify, lambda x: sp.simplify(sp.expand_trig(x))):
+                try:
+                    z = symx._with_timeout(lambda: f(r1), 5.0)
+                except Exception:
+                    continue
+                if z == 0:
+                    eq = True
+                    break
+            if not eq:
+                proven = False
+        if not proven:
+            bad = _guard_witness(conds, res, s_, sym)
+            if bad is not None:
+                chk.ob("R09.9", key, False, fi.where(),
+                       what + ": the guard also holds for %s, where the shortcut `ra' = %s, dec' = %s` is not the rotation: %s"
+                       % (fam, str(ra_v)[:120], str(dec_v)[:80], bad))
+                return
+            allok = False
+    chk.ob("R09.9", key, True if allok else None, fi.where(),
+           what + (" (solutions of the guard: %s)" % "; ".join(", ".join("%s = %s" % (a_, t) for a_, t in s_.items()) for s_ in subs)[:300] if allok
+                   else ": the returned terms could not be shown equal to the rotation on the guard's solution set, nor different from it"))
+
+
+def _rotate_cases(ra_o, dec_o, angles):
+    """the (ra', dec') result split into its guarded alternatives: [(guard relations, ra', dec', pinned)], pinned = the guard confines an Euler
+    angle to isolated values; None when an alternative is not selected by relations on the Euler angles alone"""
+    out = []
+    for conds, v in _guarded_cases(sp.Tuple(ra_o, dec_o)):
+        rels = _flat_conds(conds)
+        if rels is None:
+            return None
+        if any(c.negated in rels for c in rels):
+            continue                                    # the same test taken both ways: not a path
+        if any(not c.free_symbols <= set(angles) for c in rels):
+            return None
+        out.append((rels, v[0], v[1], any(_pinning_equation(c) is not None for c in rels)))
+    return out
+
+
 def rotate(chk, repo):
     fi = repo.func(CO + "rotate")
     chk.analysed_unit(fi.qualname)
     se = _Eval(repo)
     phi, theta, psi, ra, dec = symx.symbols("phi", "theta", "psi", "ra", "dec")
+    sym = (phi, theta, psi, ra, dec)
     # array input: the positions have a length (whatever local holds that fact)
     se.assume = {"call:hasattr": True, "call:isscalar": False}
     r = se.run(fi, {"phi": phi, "theta": theta, "psi": psi, "ra": ra, "dec": dec}, {})
     if not (isinstance(r, tuple) and len(r) == 2):
         chk.ob("R09.9", "rotate::returns-pair", False, fi.where(), "expected (ra, dec), got %r" % (r,))
         return
-    d2r = sp.pi / 180
-    P, T, S = -phi * d2r, -theta * d2r, -psi * d2r
-    a = ra * d2r - P
-    b = dec * d2r
-    lat_arg = -sp.sin(T) * sp.cos(b) * sp.sin(a) + sp.cos(T) * sp.sin(b)
-    lon_arg = sp.atan2(sp.cos(T) * sp.cos(b) * sp.sin(a) + sp.sin(T) * sp.sin(b), sp.cos(b) * sp.cos(a)) + S
-    ra_o, dec_o = r
-    k, rest = dec_o.as_independent(ra, dec, phi, theta, psi, as_Add=False)
-    okk = sp.simplify(k - 180 / sp.pi) == 0 and isinstance(rest, sp.asin)
-    chk.ob("R09.9", "rotate::latitude-is-asin-in-degrees", bool(okk), fi.where(), "dec' = asin(...)*180/pi")
-    if okk:
-        ok2, desc, inner = _two_sided(rest.args[0])
-        chk.ob("R09.3", "rotate::asin-argument-clamped-both-sides", ok2, fi.where(), "asin argument clamped on both sides (%s)" % desc)
-        eq, d = symx.equal(inner, lat_arg)
-        chk.ob("R09.9", "rotate::latitude-formula", eq, fi.where(), "zxz rotation with negated angles (rotating points): sin(dec') formula%s" % ("" if eq else " (difference %s)" % str(d)[:160]))
-    k, rest = ra_o.as_independent(ra, dec, phi, theta, psi, as_Add=False)
-    okk = sp.simplify(k - 180 / sp.pi) == 0 and isinstance(rest, sp.Mod) and sp.simplify(rest.args[1] - 2 * sp.pi) == 0
-    chk.ob("R09.4", "rotate::longitude-in-[0,360)", bool(okk), fi.where(), "ra' = (angle mod 2pi)*180/pi")
-    if okk:
-        diff = sp.simplify(rest.args[0] - lon_arg)
-        eq = (diff.is_number and sp.simplify(sp.Mod(diff, 2 * sp.pi)) == 0) or symx.equal(rest.args[0], lon_arg)[0]
-        chk.ob("R09.9", "rotate::longitude-formula", bool(eq), fi.where(), "ra' formula of the zxz rotation")
+    # alternatives selected by a guard on the Euler angles: those whose guard pins an angle to isolated values are compared with the rotation
+    # on the guard's solution set; the alternative(s) for a whole range of angles must have the general form
+    general = [r]
+    if all(isinstance(x, sp.Basic) for x in r) and any(x.has(sp.Piecewise) for x in r):
+        try:
+            cases = _rotate_cases(r[0], r[1], (phi, theta, psi))
+        except Exception:
+            cases = None
+        if cases and any(not c[3] for c in cases):
+            general = [(c[1], c[2]) for c in cases if not c[3]]
+            for k, c in enumerate([c for c in cases if c[3]]):
+                _rotate_alternative(chk, fi, k + 1, c[0], c[1], c[2], sym)
+    for k, (ra_o, dec_o) in enumerate(general):
+        _rotate_general(chk, fi, ra_o, dec_o, sym, "" if k == 0 else "#%d" % (k + 1))
     # scalar in, scalar out: evaluated again for a position without a length, the result is element 0 of what array input gives
     se2 = _Eval(repo)
     se2.assume = {"call:hasattr": False, "call:isscalar": True}
@@ -927,13 +1211,49 @@ def rotate(chk, repo):
     except AnalysisError:
         r0 = None
     AT = sp.Function("AT")
+
+    def at0(x):
+        # element 0 of every alternative
+        if isinstance(x, sp.Piecewise):
+            return sp.Piecewise(*[(at0(v), c) for v, c in x.args], evaluate=False)
+        return AT(x, 0)
+
+    def leaves(x):
+        if isinstance(x, sp.Piecewise):
+            return [y for v, _ in x.args for y in leaves(v)]
+        return [x]
     ok = None
     if isinstance(r0, tuple) and len(r0) == 2 and all(isinstance(x, sp.Basic) for x in r0 + r):
-        if all(x0 == AT(x, 0) for x0, x in zip(r0, r)):
+        if all(x0 == AT(x, 0) or x0 == at0(x) for x0, x in zip(r0, r)):
             ok = True
-        elif all(isinstance(x0, AT) for x0 in r0):
+        elif all(isinstance(y, AT) for x0 in r0 for y in leaves(x0)):
             ok = False          # an element is taken, but not element 0 of the corresponding array
     chk.ob("R09.9", "rotate::scalar-in-scalar-out", ok, fi.where(), "scalar inputs are returned as scalars (element 0 of the result for array input)")
+
+
+def _rotate_general(chk, fi, ra_o, dec_o, sym, sfx):
+    phi, theta, psi, ra, dec = sym
+    d2r = sp.pi / 180
+    P, T, S = -phi * d2r, -theta * d2r, -psi * d2r
+    a = ra * d2r - P
+    b = dec * d2r
+    lat_arg = -sp.sin(T) * sp.cos(b) * sp.sin(a) + sp.cos(T) * sp.sin(b)
+    lon_arg = sp.atan2(sp.cos(T) * sp.cos(b) * sp.sin(a) + sp.sin(T) * sp.sin(b), sp.cos(b) * sp.cos(a)) + S
+    k, rest = dec_o.as_independent(ra, dec, phi, theta, psi, as_Add=False)
+    okk = sp.simplify(k - 180 / sp.pi) == 0 and isinstance(rest, sp.asin)
+    chk.ob("R09.9", "rotate::latitude-is-asin-in-degrees" + sfx, bool(okk), fi.where(), "dec' = asin(...)*180/pi")
+    if okk:
+        ok2, desc, inner = _two_sided(rest.args[0])
+        chk.ob("R09.3", "rotate::asin-argument-clamped-both-sides" + sfx, ok2, fi.where(), "asin argument clamped on both sides (%s)" % desc)
+        eq, d = symx.equal(inner, lat_arg)
+        chk.ob("R09.9", "rotate::latitude-formula" + sfx, eq, fi.where(), "zxz rotation with negated angles (rotating points): sin(dec') formula%s" % ("" if eq else " (difference %s)" % str(d)[:160]))
+    k, rest = ra_o.as_independent(ra, dec, phi, theta, psi, as_Add=False)
+    okk = sp.simplify(k - 180 / sp.pi) == 0 and isinstance(rest, sp.Mod) and sp.simplify(rest.args[1] - 2 * sp.pi) == 0
+    chk.ob("R09.4", "rotate::longitude-in-[0,360)" + sfx, bool(okk), fi.where(), "ra' = (angle mod 2pi)*180/pi")
+    if okk:
+        diff = sp.simplify(rest.args[0] - lon_arg)
+        eq = (diff.is_number and sp.simplify(sp.Mod(diff, 2 * sp.pi)) == 0) or symx.equal(rest.args[0], lon_arg)[0]
+        chk.ob("R09.9", "rotate::longitude-formula" + sfx, bool(eq), fi.where(), "ra' formula of the zxz rotation")
 
 
 def unitvec(chk, repo):
